@@ -78,6 +78,10 @@ def bounds(tier):
         "result_inputs": "multisets of 2 sequences of length 1-3 and of 3 sequences of length 1-2 over 2 letters"
         if tier == "quick" else "multisets of 2-3 sequences of length 1-3 over 2 letters",
         "join_timeout_s": JOIN_TIMEOUT,
+        "generic_application": "all sequences of %d operations (%s) of length <= %d on a pure-Python Application "
+                               "with harness-owned job and virtual clock (tick = %.0f s, join time-out %.0f s), "
+                               "evaluate() succeeding / failing" % (len(GEN_OPS), ", ".join(GEN_OPS),
+                                                                     5 if tier == "quick" else 7, GEN_TICK, GEN_TIMEOUT),
     }
 
 
@@ -755,11 +759,17 @@ def shards(tier, seed):
             for t in ("OK", "REORDER"):
                 for c in range(nres):
                     out.append({"kind": "results", "wrapper": w, "tool": t, "seqtype": st, "chunk": c, "chunks": nres})
+    for ev in ("OK", "FAIL"):
+        for c in range(4):
+            out.append({"kind": "generic", "wrapper": "mini_generic", "eval": ev, "chunk": c, "chunks": 4})
     k = seed % max(1, len(out))
     return out[k:] + out[:k]
 
 
 def run_shard(shard, ctx):
+    if shard["kind"] == "generic":
+        run_generic(shard, ctx)
+        return
     depth = depth_for(shard["wrapper"], ctx.tier)
     if shard["kind"] == "paths":
         paths = core_paths(shard["tool"], depth)
@@ -792,6 +802,231 @@ def run_shard(shard, ctx):
                             "strings": list(strings), "ops": ["start", "release", "join"]})
 
 
+# ---------------------------------------------------------------------------
+# generic Application.join()/cancel()/get_app_state() (what WebApp and user-defined applications
+# inherit; LocalApp overrides join): explicit-state exploration of a pure-Python application whose
+# job and whose CLOCK are owned by the harness.  biotite.application.application.time is replaced
+# by a virtual clock, so 'the job finishes' (release) and 'time passes' (tick: more than the join
+# time-out elapses) are environment events of the alphabet like any other.
+# ---------------------------------------------------------------------------
+GEN_OPS = ["start", "release", "tick", "join", "join_t", "cancel", "get_app_state", "get_result"]
+GEN_TIMEOUT = 1.0
+GEN_TICK = 5.0
+
+
+class VClock:
+    """stands in for the `time` module inside biotite.application.application"""
+
+    def __init__(self):
+        self.now = 1000.0
+        self.sleeps = 0
+
+    def time(self):
+        return self.now
+
+    def monotonic(self):
+        return self.now
+
+    def sleep(self, dt):
+        self.sleeps += 1
+        if self.sleeps > 100000:
+            raise RuntimeError("harness: join() did not return on the virtual clock")
+        self.now += max(float(dt), 1e-6)
+
+
+_generic_cls = None
+
+
+def generic_class():
+    global _generic_cls
+    if _generic_cls is None:
+        from biotite.application.application import Application, AppState, requires_state
+
+        class MiniGeneric(Application):
+            def __init__(self, eval_mode):
+                super().__init__()
+                self.job_done = False
+                self.eval_mode = eval_mode
+                self.verif_cleanups = 0
+                self.result = None
+
+            def run(self):
+                self.run_calls = getattr(self, "run_calls", 0) + 1
+
+            def is_finished(self):
+                return self.job_done
+
+            def wait_interval(self):
+                return 0.01
+
+            def evaluate(self):
+                if self.eval_mode == "FAIL":
+                    raise ValueError("unreadable output")
+                self.result = 42
+
+            def clean_up(self):
+                self.verif_cleanups += 1
+
+            @requires_state(AppState.JOINED)
+            def get_result(self):
+                return self.result
+
+        _generic_cls = MiniGeneric
+    return _generic_cls
+
+
+def gen_model(m, op):
+    """reference model: m = (state, done, cleanups); state is the EFFECTIVE state (FINISHED as soon as
+    the job is done).  Returns (outcome or None when the operation is not enabled, new m)."""
+    st, done, cl, ev = m
+    eff = "FINISHED" if (st == "RUNNING" and done) else st
+    if op == "release":
+        return "ok", (st, True, cl, ev)
+    if op == "tick":
+        return "ok", (st, done, cl, ev)
+    if op == "start":
+        if eff != "CREATED":
+            return "AppStateError", (eff, done, cl, ev)
+        return "ok", ("RUNNING", done, cl, ev)
+    if op == "get_app_state":
+        return eff, (eff, done, cl, ev)
+    if op == "get_result":
+        return ("value:42" if eff == "JOINED" else "AppStateError"), (eff, done, cl, ev)
+    if op == "cancel":
+        if eff not in ("RUNNING", "FINISHED"):
+            return "AppStateError", (eff, done, cl, ev)
+        return "ok", ("CANCELLED", done, cl + 1, ev)
+    if op in ("join", "join_t"):
+        if eff not in ("RUNNING", "FINISHED"):
+            return "AppStateError", (eff, done, cl, ev)
+        if done:
+            # 'If the application is FINISHED the joining process happens immediately' - however
+            # much time has passed since start()
+            if ev == "FAIL":
+                return "Other:ValueError", ("CANCELLED", done, cl + 1, ev)
+            return "ok", ("JOINED", done, cl + 1, ev)
+        if op == "join":
+            return None, m  # would wait forever
+        return "TimeoutError", ("CANCELLED", done, cl + 1, ev)
+    raise ValueError(op)
+
+
+def gen_do(app, clock, op):
+    from biotite.application import AppStateError, TimeoutError as AppTimeout
+
+    try:
+        if op == "release":
+            app.job_done = True
+        elif op == "tick":
+            clock.now += GEN_TICK
+        elif op == "start":
+            app.start()
+        elif op == "join":
+            app.join()
+        elif op == "join_t":
+            app.join(timeout=GEN_TIMEOUT)
+        elif op == "cancel":
+            app.cancel()
+        elif op == "get_app_state":
+            return app.get_app_state().name
+        elif op == "get_result":
+            return "value:%r" % (app.get_result(),)
+        return "ok"
+    except AppStateError:
+        return "AppStateError"
+    except (AppTimeout, TimeoutError):
+        return "TimeoutError"
+    except RuntimeError as e:
+        if str(e).startswith("harness:"):
+            raise
+        return "Other:RuntimeError"
+    except Exception as e:  # noqa: BLE001
+        return "Other:" + type(e).__name__
+
+
+def gen_step_ok(ctx, ev, hist, op, m, app, clock):
+    want, m2 = gen_model(m, op)
+    if want is None:
+        return None, m
+    ctx.transition()
+    got = gen_do(app, clock, op)
+    case = {"kind": "generic", "eval": ev, "ops": hist + [op]}
+    frm = "FINISHED" if (m[0] == "RUNNING" and m[1]) else m[0]
+    late = (clock.now - getattr(app, "_start_time", clock.now)) > GEN_TIMEOUT
+    cls = "%s|from=%s%s" % (op, frm, "|late" if late and op in ("join", "join_t") else "")
+    if got != want:
+        ctx.violation("mini_generic|%s|outcome:%s_instead_of_%s" % (cls, got, want),
+                      "generic Application: %s returned/raised %s, the life cycle demands %s" % (op, got, want),
+                      case, want, got)
+        return False, m2
+    eff = m2[0]
+    admitted = {eff} | ({"RUNNING"} if eff == "FINISHED" else set())
+    obs = (app._state.name, app.verif_cleanups)
+    if obs[0] not in admitted or obs[1] != m2[2]:
+        ctx.violation("mini_generic|%s|state:%s" % (cls, "flag" if obs[0] not in admitted else "cleanups"),
+                      "generic Application: state after %s differs from the life cycle" % op, case,
+                      [sorted(admitted), m2[2]], list(obs))
+        return False, m2
+    return True, m2
+
+
+def run_generic(shard, ctx):
+    import copy
+
+    import biotite.application.application as appmod
+
+    depth = 5 if ctx.tier == "quick" else 7
+    ev = shard["eval"]
+    real_time = appmod.time
+    try:
+        clock = VClock()
+        appmod.time = clock
+        app = generic_class()(ev)
+        m0 = ("CREATED", False, 0, ev)
+        ctx.state(("generic",) + m0)
+        stack = [([], m0, app, clock)]
+        while stack:
+            hist, m, app, clock = stack.pop()
+            for op in GEN_OPS:
+                if len(hist) == 0 and GEN_OPS.index(op) % shard["chunks"] != shard["chunk"]:
+                    continue
+                if gen_model(m, op)[0] is None:
+                    continue
+                a2, c2 = copy.deepcopy((app, clock))
+                appmod.time = c2
+                ok, m2 = gen_step_ok(ctx, ev, hist, op, m, a2, c2)
+                if ok is None:
+                    continue
+                ctx.ev(1, 1 if "start" in hist + [op] else 0)
+                ctx.trace()
+                late = (c2.now - getattr(a2, "_start_time", c2.now)) > GEN_TIMEOUT
+                ctx.outcome(("generic", op, m2[0], m2[1], late))
+                ctx.state(("generic",) + m2 + (late,))
+                if ok and len(hist) + 1 < depth:
+                    stack.append((hist + [op], m2, a2, c2))
+    finally:
+        appmod.time = real_time
+
+
+def replay_generic(case, ctx):
+    import biotite.application.application as appmod
+
+    real_time = appmod.time
+    try:
+        clock = VClock()
+        appmod.time = clock
+        app = generic_class()(case["eval"])
+        m = ("CREATED", False, 0, case["eval"])
+        hist = []
+        for op in case["ops"]:
+            ok, m = gen_step_ok(ctx, case["eval"], hist, op, m, app, clock)
+            hist.append(op)
+            if not ok:
+                return
+    finally:
+        appmod.time = real_time
+
+
 def crash_class(case):
     if isinstance(case, dict):
         return "%s|%s" % (case.get("wrapper"), case.get("tool"))
@@ -799,6 +1034,9 @@ def crash_class(case):
 
 
 def replay(case, ctx):
+    if case.get("kind") == "generic":
+        replay_generic(case, ctx)
+        return
     if not GRAPH.exists():
         run_tlc()
     run_path(ctx, case["wrapper"], case["tool"], case["ops"], strings=tuple(case.get("strings", ("ab", "a"))),
